@@ -9,8 +9,10 @@ import ModVerif.Model.TlogNote
 import ModVerif.Spec.RFC6962
 import ModVerif.Proofs.TlogBasic
 import ModVerif.Proofs.TlogTH
+import ModVerif.Proofs.TlogIndex
+import ModVerif.Proofs.TlogCodec
 namespace ModVerif.Props.C09
-open ModVerif ModVerif.Tlog ModVerif.TlogTH
+open ModVerif ModVerif.Tlog ModVerif.TlogTH ModVerif.TlogNote
 
 /-- `maxpow2 n = (k, l)`: `k = 2^l`, `k < n ≤ 2k` — the RFC 6962 split point — for every `n` in the int64
     range (`n ≤ 2^63`); the `l < 62` guard (fix 8e3ce2a) never cuts the loop short there. -/
@@ -37,6 +39,63 @@ theorem maxpow2_eq_splitPoint (n : Nat) (h1 : 1 < n) (h2 : n ≤ 2 ^ 63) :
 
 /-- beyond the int64 range the loop stops at `2^62` instead of running forever (F7) -/
 theorem maxpow2_terminates_beyond_range : maxpow2 (2 ^ 64 + 5) = (2 ^ 62, 62) := by decide +kernel
+
+/-! ### the dense layout -/
+
+/-- ★ `StoredHashIndex(level, k)` is the position of coordinate `(level, k)` in the specification's layout
+    (records in order, for record `i` the levels `0 .. tz (i+1)`) of every log that contains the complete
+    subtree `(level, k)`.  Hence the map (level, k) ↦ position is injective on the coordinates of a log and
+    its image lies inside the dense store. -/
+theorem storedHashIndex_layout (n l k : Nat) (h : (k + 1) * 2 ^ l ≤ n) :
+    (RFC6962.layout n)[storedHashIndex l k]? = some (l, k) :=
+  Tlog.storedHashIndex_layout n l k h
+
+/-- injectivity of the position map, as a corollary -/
+theorem storedHashIndex_injective (n l k l' k' : Nat) (h : (k + 1) * 2 ^ l ≤ n) (h' : (k' + 1) * 2 ^ l' ≤ n)
+    (heq : storedHashIndex l k = storedHashIndex l' k') : l = l' ∧ k = k' := by
+  have a := Tlog.storedHashIndex_layout n l k h
+  have b := Tlog.storedHashIndex_layout n l' k' h'
+  rw [heq, b] at a
+  simp at a
+  omega
+
+/-- ★ the documented count is the length of the layout … -/
+theorem storedHashCount_eq (n : Nat) (h : n ≤ 2 ^ 64) : storedHashCount n = (RFC6962.layout n).length := by
+  rw [Tlog.layout_length, Tlog.storedHashCount_eq_index n h, Tlog.storedHashIndex_zero_eq]
+
+/-- … and the position at which the next record's hashes are to be stored (doc of StoredHashes). -/
+theorem storedHashCount_eq_next_leaf (n : Nat) (h : n ≤ 2 ^ 64) : storedHashCount n = storedHashIndex 0 n :=
+  Tlog.storedHashCount_eq_index n h
+
+/-- "Each new record n adds 1 + trailingZeros(n+1) hashes." -/
+theorem storedHashIndex_zero_succ (n : Nat) :
+    storedHashIndex 0 (n + 1) = storedHashIndex 0 n + 1 + RFC6962.tz (n + 1) :=
+  Tlog.storedHashIndex_zero_succ n
+
+/-! ### tree heads, records and hashes survive their text encodings unchanged -/
+
+/-- ★ every tree head with a size in `[0, 2^63)` and a 32-byte hash survives FormatTree / ParseTree -/
+theorem parseTree_formatTree (t : Tree) (hn : 0 ≤ t.n) (hm : t.n ≤ Decimal.int64Max) (hl : t.hash.length = 32) :
+    parseTree (formatTree t) = some t :=
+  TlogNote.parseTree_formatTree t hn hm hl
+
+/-- ★ every record (any int64 id, any text FormatRecord accepts) survives FormatRecord / ParseRecord, and the
+    parser stops exactly after it: whatever follows (`rest`, arbitrary bytes) is returned untouched -/
+theorem parseRecord_formatRecord (id : Int) (text rest msg : Bytes)
+    (h1 : Decimal.int64Min ≤ id) (h2 : id ≤ Decimal.int64Max) (hf : formatRecord id text = some msg) :
+    parseRecord (msg ++ rest) = some (id, text, rest) :=
+  TlogNote.parseRecord_formatRecord id text rest msg h1 h2 hf
+
+/-- ★ every hash survives its base64 form … -/
+theorem parseHash_hashString (h : Bytes) (hl : h.length = 32) : parseHash (hashString h) = some h :=
+  TlogNote.parseHash_hashString h hl
+
+/-- ★ … and its JSON form -/
+theorem unmarshalJSON_marshalJSON (h : Bytes) (hl : h.length = 32) : unmarshalJSON (marshalJSON h) = some h :=
+  TlogNote.unmarshalJSON_marshalJSON h hl
+
+/-- non-vacuity: FormatRecord accepts ordinary record text -/
+example : (formatRecord 7 (B "example.com/m v1.0.0 h1:abc=\n")).isSome = true := by decide +kernel
 
 /-! ### concrete witnesses in the term algebra (kernel `decide`): logs of up to 13 records -/
 
